@@ -1,0 +1,24 @@
+//go:build verif
+
+package tq
+
+import (
+	"net/http"
+
+	"github.com/git-lfs/git-lfs/v3/lfsapi"
+)
+
+// VerifStorageRequest builds the request of a basic transfer for the given
+// action the way the adapters do (adapterBase.newHTTPRequest) and sends it
+// the way they do (adapterBase.doHTTP), for the verification harness (only
+// with `-tags verif`).
+func VerifStorageRequest(client *lfsapi.Client, remote string, dir Direction, method string, rel *Action, oid string, authenticated bool) (*http.Response, error) {
+	a := newAdapterBase(nil, "basic", dir, nil)
+	a.apiClient = client
+	a.remote = remote
+	req, err := a.newHTTPRequest(method, rel)
+	if err != nil {
+		return nil, err
+	}
+	return a.doHTTP(&Transfer{Oid: oid, Authenticated: authenticated}, req)
+}
